@@ -2,15 +2,17 @@
 (A) CDC.tla: per node applied / in-channel / batcher / FIFO (key -> groups) / highest key / cursor /
     taken / hwm / snapshot index, cluster leader set, endpoint, delivered set; actions shaped like the
     code (Apply, Ingest with the hwm filter, Flush keyed by the highest label and dropped at or below the
-    highest key ever, Take / SendOK / Gain / Lose, Broadcast, LeaderPrune, FollowerRecv, SnapshotSync,
+    highest key ever, leadership signals queued for the main loop (Signal, MainHandle), the leader loop as a process of its own
+    (LoopExit = stop check, TakeParked, Take, SendOK), Broadcast, LeaderPrune, FollowerRecv, SnapshotSync,
     Restart, endpoint down/up).  Invariants Labelled, NoSkip (the high-water mark never passes an
     undelivered change), TenureOrder, structural ones; liveness under fairness on small configurations.
-    Ten mechanism switches, each with a negative control TLC must refute (plus a liveness one).
+    Eleven mechanism switches, each with a negative control TLC must refute (plus a liveness one).
 (C) N real cdc.Service instances (real batcher, bbolt FIFO, HTTP sink) over a scripted cdc.Cluster, fed
     by real databases through the real db.CDCStreamer hooks reset per log entry, a recording endpoint
     that can refuse: directed witnesses of every negative control and seeded random histories
     (single / multi-statement requests with and without transactions, explicit BEGIN..COMMIT, failing
-    statements, filtered tables, leadership flips during retries, outages, delayed HWM updates,
+    statements, filtered tables, leadership flips during retries, bursts of 1..20 back-to-back leadership signals in every state
+    (leader loops held at a gate before their first stop check), outages, delayed HWM updates,
     snapshots, restarts).  Every hook event is consumed by TraceCDC.tla, which follows what the code did
     and evaluates Labelled / TenureOrder at every accepted payload, NoSkip at every hwm change,
     completeness at quiescence (with the reason a group left the pipeline), and the mechanism rules.
@@ -25,11 +27,12 @@ TECHNIQUE = "TLA+ spec of the CDC pipeline (FIFO / high-water mark / leadership 
 
 NEG = (("OneGroupPerEntry", "NoSkip"), ("LabelEveryGroup", "Labelled"), ("KeyByHighest", "NoSkip"),
        ("SyncFlushBeforeSnapshot", "NoSkip"), ("DrainInBeforeSync", "NoSkip"), ("HWMAfterSendOK", "NoSkip"),
-       ("PruneToHWMOnly", "NoSkip"), ("RewindCursor", "NoSkip"), ("RestartHWMBelowLowest", "NoSkip"),
+       ("PruneToHWMOnly", "NoSkip"), ("RewindCursor", "NoSkip"), ("ParkedKeptUntilSent", "NoSkip"),
+       ("RestartHWMBelowLowest", "NoSkip"),
        ("DropReapplied", "TenureOrder"))
 
 
-ACTIONS = ("Apply", "Ingest", "Flush", "Take", "SendOK", "Gain", "Lose", "Broadcast", "LeaderPrune", "FollowerRecv",
+ACTIONS = ("Apply", "Ingest", "Flush", "Take", "TakeParked", "SendOK", "Signal", "MainHandle", "LoopExit", "Broadcast", "LeaderPrune", "FollowerRecv",
            "SnapshotSync", "Restart", "EndpointDown", "EndpointUp")
 
 
@@ -43,9 +46,9 @@ def design(ctx):
             add0(key, n)
     ctx.add = add
     jobs = []
-    mc = [("CDC_mc.cfg", 1), ("CDC_mc_restart.cfg", 1), ("CDC_mc_chan.cfg", 1)]
+    mc = [("CDC_mc.cfg", 2), ("CDC_mc_restart.cfg", 1), ("CDC_mc_chan.cfg", 1), ("CDC_mc_1n.cfg", 1)]
     if ctx.thorough:
-        mc += [("CDC_mc_full.cfg", 2), ("CDC_mc_async.cfg", 2), ("CDC_mc_restart2.cfg", 2), ("CDC_mc_4e.cfg", 2), ("CDC_mc_3n.cfg", 2)]
+        mc += [("CDC_mc_unl.cfg", 2), ("CDC_mc_full.cfg", 2), ("CDC_mc_async.cfg", 2), ("CDC_mc_restart2.cfg", 2), ("CDC_mc_4e.cfg", 2), ("CDC_mc_3n.cfg", 2)]
     with ThreadPoolExecutor(max_workers=ctx.pick(4, 2)) as ex:
         for cfg, w in mc:
             # a configuration leaves out some features (restart, separate in-channel, asynchronous HWM updates); vacuity is
@@ -112,6 +115,12 @@ def make_key(rows):
         if name.startswith("hwm-passed-undelivered"):
             where = "at-restart" if ev == "cdc.open" else str(bad.get("role", "?"))
             return "cdc:%s:%s" % (name, where)
+        # a batch parked by a stopped leader loop that is never sent: name the history class
+        if name in ("unsent-batch-skipped-after-leadership-change", "lost:unsent-batch-skipped-after-leadership-change"):
+            node = bad.get("inst") if ev == "cdc.take" else None
+            flaps = [r for r in ctxrows if r.get("ev") == "c.flap" and r.get("parked") and (node is None or r.get("node") == node)]
+            after = ":after=flap-burst-while-parked" if flaps else ""
+            return "cdc:%s%s%s" % (name, ":at=cdc.take" if ev == "cdc.take" else "", after)
         if name.startswith("lost:"):
             return "cdc:" + name
         return "cdc:%s:at=%s" % (name, ev)
@@ -119,10 +128,13 @@ def make_key(rows):
 
 
 def run(ctx):
-    design(ctx)
     tr = os.path.join(ctx.scratch, "cdc.ndjson")
     res = os.path.join(ctx.scratch, "cdc-results.json")
-    p = ctx.run_harness(["cdc-trace", "-out", tr, "-results", res, "-runs", str(ctx.pick(14, 220)), "-dir", ctx.sub("cdc")], timeout=3000)
+    ctx.harness()
+    with ThreadPoolExecutor(max_workers=1) as hx:       # the driver runs while TLC checks the design
+        fut = hx.submit(ctx.run_harness, ["cdc-trace", "-out", tr, "-results", res, "-runs", str(ctx.pick(14, 220)), "-dir", ctx.sub("cdc")], timeout=3000)
+        design(ctx)
+        p = fut.result()
     st = json.loads(p.stdout.strip().splitlines()[-1])
     ctx.cov["driver"] = st
     results = json.load(open(res))
